@@ -1,7 +1,7 @@
 SPECIFICATION Spec
 CONSTANTS
   MaxOps = 10
-  Groups = {"list", "listns", "tree", "arr", "mat", "ds"}
+  Groups = {"list", "listns", "tree", "arr", "mat", "ds", "memo", "seed"}
   Big = TRUE
   Focus = ""
   Wide = FALSE
